@@ -249,3 +249,22 @@ pub fn eval(rest: &str) -> String {
         Err(e) => format!("rterr {} {} obs={}", e.line, wire::hex(e.msg.as_bytes()), obs),
     }
 }
+
+/// `vmrun <hex src>`: like `eval`, but reports global slot 0 (the observation array of generated
+/// programs) so that the VM model, which runs the real compiler's bytecode, can be compared
+pub fn vmrun(rest: &str) -> String {
+    let Some(src) = src_of(rest) else { return "bad-op".into() };
+    let c = match compile_src(&src) {
+        Err(e) => return e,
+        Ok(c) => c,
+    };
+    let bc = c.bytecode();
+    let mut vm = VM::new(bc);
+    let r = vm.run();
+    let g0 = wire::enc(&vm.globals[0]);
+    let sp = vm.verif_sp();
+    match r {
+        Ok(()) => format!("ok {} g0={} sp={}", wire::enc(&vm.last_popped()), g0, sp),
+        Err(e) => format!("rterr {} {} g0={}", e.line, wire::hex(e.msg.as_bytes()), g0),
+    }
+}
